@@ -800,6 +800,7 @@ static Json gen_deflate(Rng &r0, const std::string &focus, int tier)
                 data.set("p", (uint64_t) ((1ll << w) + r.range(-2, 2)));
         } else
                 data = gen_data_spec(r, maxlen, bias);
+        maybe_adler_worst_case(r, focus, data);
         uint64_t n = (uint64_t) data.geti("n");
         p.set("data", data).set("level", level).set("wrap", wrap).set("hb", hb);
         Json lb = Json::arr();
